@@ -54,7 +54,9 @@ var c14Offers = []extElem{
 	{"permessage-deflate; client_no_context_takeover; client_no_context_takeover", 0, true, false},
 	{"permessage-deflate; server_no_context_takeover; server_no_context_takeover", 0, false, true},
 	{"permessage-deflate; client_max_window_bits; client_max_window_bits=10", 0, false, false},
-	{"permessage-deflate; client_no_context_takeover=1", -1, true, false},
+	{"permessage-deflate; client_no_context_takeover=1", 0, true, false},
+	{"permessage-deflate; server_no_context_takeover=true", 0, false, true},
+	{"permessage-deflate; server_no_context_takeover=", 0, false, true},
 	{"permessage-deflate; client_max_window_bits=\"10\"", -1, false, false},
 	{"permessage-deflate; client_max_window_bits=010", -1, false, false},
 	{"x-webkit-deflate-frame", 0, false, false},
@@ -107,7 +109,7 @@ func init() {
 	fw.Register(&fw.Prop{
 		ID:    "C14",
 		Level: "exploration",
-		Rule: "cases = server side: every list of 1-2 offers and (thorough: all, quick: a seeded third of) the lists of 3 offers from a pool of 33 offers built from the RFC 7692 parameter grammar (both no_context_takeover flags, window-bits parameters with good/bad/missing values, unknown and duplicated parameters, other extensions) x 3 server modes, as one header line or several; client side: 19 responses x 3 client modes. " +
+		Rule: "cases = server side: every list of 1-2 offers and (thorough: all, quick: a seeded third of) the lists of 3 offers from a pool of 35 offers built from the RFC 7692 parameter grammar (both no_context_takeover flags, window-bits parameters with good/bad/missing values, unknown and duplicated parameters, other extensions) x 3 server modes, as one header line or several; client side: 19 responses x 3 client modes. " +
 			"A reference negotiator says which offer must win / whether the response must be accepted; the response header is checked; then EVERY successful handshake is followed by a compressed exchange of related messages in both directions with a raw peer that applies exactly the parameters the handshake response states. " +
 			"distinct key = (side, mode, index of winning offer, its parameter set, response parameter set / client verdict)",
 		Gen:         c14Gen,
@@ -117,7 +119,7 @@ func init() {
 		},
 		Assumptions: []string{
 			"reference negotiator (RFC 7692 section 7, fixed 32 KiB window): an offer is acceptable iff it is permessage-deflate and every parameter is known, well formed, not duplicated, and is not server_max_window_bits below 15; client_max_window_bits (no value or 8..15) is a hint that may be ignored",
-			"no verdict: parameters with an unexpected value on a flag (client_no_context_takeover=1), quoted or zero padded window bits, duplicated or malformed-valued parameters in a server RESPONSE",
+			"no verdict: quoted or zero padded window bits, duplicated or malformed-valued parameters in a server RESPONSE",
 			"the raw peer decodes what the library compresses with a fresh inflater per message iff the response says server_no_context_takeover (server side library) / the client may always reset its own context",
 		},
 	})
